@@ -202,6 +202,29 @@ theorem fresh_group_map_in_error_chain_changes_routing :
   ⟨[.mk 1 [] [.fail 1 404] false], [.mk 1 [] [.respond 2 200] false], wReq,
     { wReq with groups := [1] }, 404, [⟨1, 1, none, none, 1⟩], by decide⟩
 
+/-! ### observation: group names of Caddyfile named routes (outside the property's quantifier) -/
+
+/-- the tree the Caddyfile adapter emits for
+    `&(nr) { handle /b { respond 201 }  handle { respond 202 } }` invoked from
+    `handle /a { invoke nr }  handle { respond 203 }`: `extractNamedRoutes` counts groups with a
+    counter of its own, so the named route's handle blocks carry group `g` = the group of the
+    site's handle blocks (real adapter output: "group2" four times) -/
+def namedGroupSite : List Route :=
+  [ .mk 2 [[.atom .path [1]]] [.sub [.mk 0 [] [.invoke 1] false] false []] false,
+    .mk 2 [] [.sub [.mk 0 [] [.answer (.lit 203)] false] false []] false ]
+def namedGroupEnv (g : Nat) : List Route :=
+  [ .mk 0 [] [.sub [ .mk g [[.atom .path [3]]] [.sub [.mk 0 [] [.answer (.lit 201)] false] false []] false,
+                     .mk g [] [.sub [.mk 0 [] [.answer (.lit 202)] false] false []] false ] false []] false ]
+
+/-- the server evaluates that tree exactly by the rules — groups are global to the request — and
+    so skips every handle block of the named route: the request for `/a` gets the empty default
+    response instead of the 202 the Caddyfile prescribes; with a group name of its own (candidate
+    adapter patch) the named route answers. Not a clause of C05 (the emitted tree is evaluated
+    correctly); reported as an adapter observation. -/
+theorem named_route_in_invokers_group_is_skipped_observation :
+    serveNamed (namedGroupEnv 2) namedGroupSite false [] wReq = ⟨[], none⟩ ∧
+    serveNamed (namedGroupEnv 3) namedGroupSite false [] wReq = ⟨[], some 202⟩ := by decide
+
 /-! ### source facts (regenerated from /repo on every run) -/
 
 /-- the request-context values the routing reads are written at these places and nowhere else:
